@@ -1422,3 +1422,122 @@ Proof.
   intros a b H. pose proof (proj1 (forallb_forall _ conv_pairs) pairs_bin_rt _ H) as W. unfold bin_rt_check in W.
   destruct (find_pair b a) as [g|]; [|discriminate]. exists g. split; [reflexivity|]. lia.
 Qed.
+
+(* ================================================================= 15. named constants and web colours *)
+(* the eight named constants of RgbColor have the channels their names say (C12) *)
+Lemma c12_named_constants : forall t, In t color_table -> is_rgb t = true ->
+  map (fun c => (get_r t c, get_g t c, get_b t c)) (named_colors t) =
+  [(0, 0, 0); (max_r t, 0, 0); (0, max_g t, 0); (0, 0, max_b t);
+   (max_r t, max_g t, 0); (max_r t, 0, max_b t); (0, max_g t, max_b t); (max_r t, max_g t, max_b t)] /\
+  Forall (valid t) (named_colors t) /\
+  nth 0 (named_colors t) 0 = color_black t /\ nth 7 (named_colors t) 0 = color_white t.
+Proof.
+  intros t Ht R. destruct (good_row_facts t (in_table_good t Ht)) as (W & P & _).
+  destruct (rgb_max t W P R) as ((? & Er) & (? & Eg) & (? & Eb)).
+  assert (Hr : 0 <= max_r t <= max_r t) by lia. assert (Hg : 0 <= max_g t <= max_g t) by lia.
+  assert (Hb : 0 <= max_b t <= max_b t) by lia.
+  assert (Zr : 0 <= 0 <= max_r t) by lia. assert (Zg : 0 <= 0 <= max_g t) by lia. assert (Zb : 0 <= 0 <= max_b t) by lia.
+  unfold named_colors. cbn [map nth].
+  destruct (rgb_new_small t _ _ _ W P R Zr Zg Zb) as (-> & -> & -> & V0).
+  destruct (rgb_new_small t _ _ _ W P R Hr Zg Zb) as (-> & -> & -> & V1).
+  destruct (rgb_new_small t _ _ _ W P R Zr Hg Zb) as (-> & -> & -> & V2).
+  destruct (rgb_new_small t _ _ _ W P R Zr Zg Hb) as (-> & -> & -> & V3).
+  destruct (rgb_new_small t _ _ _ W P R Hr Hg Zb) as (-> & -> & -> & V4).
+  destruct (rgb_new_small t _ _ _ W P R Hr Zg Hb) as (-> & -> & -> & V5).
+  destruct (rgb_new_small t _ _ _ W P R Zr Hg Hb) as (-> & -> & -> & V6).
+  destruct (rgb_new_small t _ _ _ W P R Hr Hg Hb) as (-> & -> & -> & V7).
+  split; [reflexivity|]. split; [repeat (apply Forall_cons; [assumption|]); apply Forall_nil|].
+  unfold color_black, color_white, is_rgb in *. destruct (c_kind t); try discriminate. auto.
+Qed.
+
+(* with_rgb888: every channel is the 8 bit argument scaled to nearest *)
+Lemma web_facts :
+  max_r web_src = 255 /\ max_g web_src = 255 /\ max_b web_src = 255 /\
+  forallb (fun t => good_row t && is_rgb t) web_types = true /\
+  forallb (fun e => match snd e with (r, g, b) => (0 <=? r) && (r <=? 255) && (0 <=? g) && (g <=? 255) && (0 <=? b) && (b <=? 255) end)
+          web_colors = true.
+Proof. repeat split; vm_cast_no_check (eq_refl true). Qed.
+
+Lemma with_rgb888_nearest t r g b : good_row t = true -> is_rgb t = true ->
+  0 <= r <= 255 -> 0 <= g <= 255 -> 0 <= b <= 255 ->
+  let c := with_rgb888 t r g b in
+  valid t c /\
+  2 * Z.abs (get_r t c * 255 - r * max_r t) <= 255 /\
+  2 * Z.abs (get_g t c * 255 - g * max_g t) <= 255 /\
+  2 * Z.abs (get_b t c * 255 - b * max_b t) <= 255 /\
+  (max_r t = 255 -> get_r t c = r) /\ (max_g t = 255 -> get_g t c = g) /\ (max_b t = 255 -> get_b t c = b).
+Proof.
+  intros G R Hr Hg Hb. destruct (good_row_facts t G) as (W & P & _).
+  destruct web_facts as (Mr & Mg & Mb & _). cbv zeta. unfold with_rgb888. rewrite Mr, Mg, Mb.
+  destruct (rgb_max t W P R) as ((Br & Er) & (Bg & Eg) & (Bb & Eb)).
+  assert (Hw8 : 1 <= 8 <= 8) by lia. change 255 with (2 ^ 8 - 1) in Hr, Hg, Hb.
+  destruct (cc_spec _ _ _ Hw8 Br Hr) as (B1 & N1 & _). destruct (cc_spec _ _ _ Hw8 Bg Hg) as (B2 & N2 & _).
+  destruct (cc_spec _ _ _ Hw8 Bb Hb) as (B3 & N3 & _). cbv zeta in *.
+  change (2 ^ 8 - 1) with 255 in *. rewrite <- Er in B1, N1. rewrite <- Eg in B2, N2. rewrite <- Eb in B3, N3.
+  destruct (rgb_new_small t _ _ _ W P R B1 B2 B3) as (-> & -> & -> & V).
+  split; [exact V|]. split; [exact N1|]. split; [exact N2|]. split; [exact N3|].
+  split; [|split]; intros ->; apply cc_same.
+Qed.
+
+Lemma c13_web_colors : forall t, In t web_types -> forall n r g b, In (n, (r, g, b)) web_colors ->
+  let c := with_rgb888 t r g b in
+  In t color_table /\ is_rgb t = true /\ (0 <= r <= 255 /\ 0 <= g <= 255 /\ 0 <= b <= 255) /\
+  valid t c /\
+  2 * Z.abs (get_r t c * 255 - r * max_r t) <= 255 /\
+  2 * Z.abs (get_g t c * 255 - g * max_g t) <= 255 /\
+  2 * Z.abs (get_b t c * 255 - b * max_b t) <= 255 /\
+  (max_r t = 255 -> get_r t c = r) /\ (max_g t = 255 -> get_g t c = g) /\ (max_b t = 255 -> get_b t c = b).
+Proof.
+  intros t Ht n r g b He. destruct web_facts as (_ & _ & _ & WT & WC).
+  pose proof (proj1 (forallb_forall _ web_types) WT t Ht) as Gt. apply andb_prop in Gt. destruct Gt as [G R].
+  pose proof (proj1 (forallb_forall _ web_colors) WC _ He) as Rg. cbn [snd] in Rg.
+  destruct (good_row_facts t G) as (_ & _ & _ & It).
+  assert (0 <= r <= 255 /\ 0 <= g <= 255 /\ 0 <= b <= 255) as (Hr & Hg & Hb) by lia.
+  cbv zeta. split; [exact It|]. split; [exact R|]. split; [auto|]. apply with_rgb888_nearest; assumption.
+Qed.
+
+(* a pinned copy of the 141 CSS colour values of web_colors.rs (r * 65536 + g * 256 + b, in source order; CSS Color
+   Module Level 3 basic + extended keywords without the "grey" spellings): a changed colour value breaks this proof.
+   The 16 basic keywords are stated by name in c13_web_basic_keywords. *)
+Definition css_values_pinned : list Z :=
+  [15792383; 16444375; 65535; 8388564; 15794175; 16119260; 16770244; 0; 16772045; 255; 9055202; 10824234;
+   14596231; 6266528; 8388352; 13789470; 16744272; 6591981; 16775388; 14423100; 65535; 139; 35723; 12092939;
+   11119017; 25600; 12433259; 9109643; 5597999; 16747520; 10040012; 9109504; 15308410; 9419919; 4734347; 3100495;
+   52945; 9699539; 16716947; 49151; 6908265; 2003199; 11674146; 16775920; 2263842; 16711935; 14474460; 16316671;
+   16766720; 14329120; 8421504; 32768; 11403055; 15794160; 16738740; 13458524; 4915330; 16777200; 15787660; 15132410;
+   16773365; 8190976; 16775885; 11393254; 15761536; 14745599; 16448210; 13882323; 9498256; 16758465; 16752762; 2142890;
+   8900346; 7833753; 11584734; 16777184; 65280; 3329330; 16445670; 16711935; 8388608; 6737322; 205; 12211667;
+   9662683; 3978097; 8087790; 64154; 4772300; 13047173; 1644912; 16121850; 16770273; 16770229; 16768685; 128;
+   16643558; 8421376; 7048739; 16753920; 16729344; 14315734; 15657130; 10025880; 11529966; 14381203; 16773077; 16767673;
+   13468991; 16761035; 14524637; 11591910; 8388736; 6697881; 16711680; 12357519; 4286945; 9127187; 16416882; 16032864;
+   3050327; 16774638; 10506797; 12632256; 8900331; 6970061; 7372944; 16775930; 65407; 4620980; 13808780; 32896;
+   14204888; 16737095; 4251856; 15631086; 16113331; 16777215; 16119285; 16776960; 10145074].
+Definition web_lookup (name : list Z) : option (Z * Z * Z) :=
+  match find (fun e => list_eqb (fst e) name) web_colors with Some e => Some (snd e) | None => None end.
+
+Lemma c13_web_values_pinned :
+  map (fun e => match snd e with (r, g, b) => r * 65536 + g * 256 + b end) web_colors = css_values_pinned /\
+  length web_colors = 141%nat /\ length web_types = 8%nat.
+Proof. repeat split; vm_compute; reflexivity. Qed.
+
+(* CSS_BLACK, SILVER, GRAY, WHITE, MAROON, RED, PURPLE, FUCHSIA, GREEN, LIME, OLIVE, YELLOW, NAVY, BLUE, TEAL, AQUA *)
+Lemma c13_web_basic_keywords :
+  map web_lookup
+    [[67; 83; 83; 95; 66; 76; 65; 67; 75];
+     [67; 83; 83; 95; 83; 73; 76; 86; 69; 82];
+     [67; 83; 83; 95; 71; 82; 65; 89];
+     [67; 83; 83; 95; 87; 72; 73; 84; 69];
+     [67; 83; 83; 95; 77; 65; 82; 79; 79; 78];
+     [67; 83; 83; 95; 82; 69; 68];
+     [67; 83; 83; 95; 80; 85; 82; 80; 76; 69];
+     [67; 83; 83; 95; 70; 85; 67; 72; 83; 73; 65];
+     [67; 83; 83; 95; 71; 82; 69; 69; 78];
+     [67; 83; 83; 95; 76; 73; 77; 69];
+     [67; 83; 83; 95; 79; 76; 73; 86; 69];
+     [67; 83; 83; 95; 89; 69; 76; 76; 79; 87];
+     [67; 83; 83; 95; 78; 65; 86; 89];
+     [67; 83; 83; 95; 66; 76; 85; 69];
+     [67; 83; 83; 95; 84; 69; 65; 76];
+     [67; 83; 83; 95; 65; 81; 85; 65]] =
+  map Some [(0, 0, 0); (192, 192, 192); (128, 128, 128); (255, 255, 255); (128, 0, 0); (255, 0, 0); (128, 0, 128); (255, 0, 255); (0, 128, 0); (0, 255, 0); (128, 128, 0); (255, 255, 0); (0, 0, 128); (0, 0, 255); (0, 128, 128); (0, 255, 255)].
+Proof. vm_compute. reflexivity. Qed.
